@@ -136,7 +136,7 @@ type c11seq struct {
 	src   string  // literal source
 }
 
-var c11multi = []rune("aé日𝄞ßz€😀")
+var c11multi = []rune("aé日\uFFFD𝄞ßz€😀")
 
 func c11mkSeq(kind string, n int) *c11seq {
 	s := &c11seq{kind: kind, n: n}
@@ -417,6 +417,60 @@ func runC11(w *fw.W) {
 	if w.Take() {
 		w.Begin("bookkeeping", nil)
 		w.End(fw.Result{Verdict: fw.Held, Evals: 0, Counters: map[string]int{"cube_cases_expected": len(kinds) * (N + 1)}})
+	}
+
+	// one slice site evaluated several times with different bound values (in a function, in a chain): every
+	// evaluation uses the values its operands have then
+	if w.Take() {
+		setup()
+		w.Begin("slice sites evaluated repeatedly", nil)
+		var vs violSet
+		n := 0
+		render := func(seq *c11seq, pos []int64) string {
+			if seq.kind == "arr" {
+				var p []string
+				for _, i := range pos {
+					p = append(p, fmt.Sprint(seq.elems[i]))
+				}
+				return "[" + strings.Join(p, ", ") + "]"
+			}
+			var rs []rune
+			for _, i := range pos {
+				rs = append(rs, seq.runes[i])
+			}
+			return `"` + string(rs) + `"`
+		}
+		oi := func(v int64) optInt { return optInt{v: v} }
+		none := optInt{nil: true}
+		for _, kind := range []string{"arr", "multi", "ascii"} {
+			for ln := 3; ln <= 6; ln++ {
+				seq := c11mkSeq(kind, ln)
+				calls := [][2]int64{{1, 2}, {3, 1}, {2, 2}, {1, 3}, {4, 1}}
+				var srcCalls, wants []string
+				for _, c := range calls {
+					nn, mm := c[0], c[1]
+					srcCalls = append(srcCalls, fmt.Sprintf("f(sq, %d, %d)", nn, mm))
+					wants = append(wants, "["+strings.Join([]string{
+						render(seq, refSlice(oi(-nn), none, none, int64(ln))), render(seq, refSlice(none, oi(-mm), none, int64(ln))),
+						render(seq, refSlice(none, none, oi(-nn), int64(ln))), render(seq, refSlice(oi(-mm), oi(nn), none, int64(ln))),
+						render(seq, refSlice(oi(nn), none, oi(mm), int64(ln)))}, ", ")+"]")
+				}
+				for _, form := range []string{
+					"f := {|s, n, m| [s[-n:], s[:-m], s[::-n], s[-m:n], s[n::m]]}\n[%s]",
+					"f := {|s, n, m| r1 := (-n:); r2 := (:-m); [s[r1], s[r2], s[::-n], s[-m:n], s[n::m]]}\n[%s]",
+				} {
+					src := "sq := " + seq.src + "\n" + fmt.Sprintf(form, strings.Join(srcCalls, ", "))
+					o := ip.Run(src, interp.Options{})
+					n++
+					if want := "[" + strings.Join(wants, ", ") + "]"; !o.OK() || o.Inspect != want {
+						vs.add("C11|slice|site-evaluated-repeatedly|"+kind, fmt.Sprintf("%s\n→ %s\nwant %s", src, o.Outcome(), want), src)
+					}
+				}
+			}
+		}
+		r := fw.Result{Verdict: fw.Held, Evals: n, Counters: map[string]int{"repeated_site_programs": n}, DKeys: []string{"repeated-sites"}}
+		vs.finish(&r)
+		w.End(r)
 	}
 
 	// source-text sample: the same rule through the parser (`s[a:b:c]`, `s[i]` written out)
